@@ -43,7 +43,7 @@ def tokenize(src):
         out.append((k, m.group()))
     return out
 
-BINPREC = [('||',), ('&&',), ('==', '!=', '<', '>', '<=', '>='), ('|',), ('^',), ('&',), ('+', '-'), ('*', '/', '%')]
+BINPREC = [('..=',), ('||',), ('&&',), ('==', '!=', '<', '>', '<=', '>='), ('|',), ('^',), ('&',), ('+', '-'), ('*', '/', '%')]
 
 class P:
     def __init__(self, toks): self.t = toks; self.i = 0; self.let_types = {}
